@@ -177,3 +177,31 @@ for op in (2, 3, 7, 8):
     co_jobs(op, 'release', 'thorough', timeout=3000, mem=24)
 for op in range(1, 9):
     co_jobs(op, 'baseline', 'thorough', timeout=3000, mem=24)
+
+# ---------------------------------------------------------------- adapters over recording leaves
+AD_COMP = {'direct': ['EXACT_SHAPE'], 'ref': ['EXACT_SHAPE'], 'any': [], 'ts': ['EXACT_SHAPE', 'EXPECT_MUTEX', 'LOCK_PROXY'], 'al': ['NEED_POW2_ARG'],
+           'tr': ['EXACT_SHAPE', 'HAS_TRACKER'], 'seg': ['MULTI_LEAF'], 'fb': ['MULTI_LEAF'], 'fb2': ['MULTI_LEAF'],
+           'fbal': ['MULTI_LEAF', 'NEED_POW2_ARG'], 'd3': ['EXPECT_MUTEX', 'HAS_TRACKER', 'NEED_POW2_ARG']}
+AD_DESC = {'direct': 'allocator_adapter<leaf>', 'ref': 'allocator_reference<leaf>', 'any': 'any_allocator_reference (type erased, virtual dispatch)',
+           'ts': 'thread_safe_allocator<leaf, harness mutex>', 'al': 'aligned_allocator<leaf>', 'tr': 'tracked_allocator<tracker, leaf>',
+           'seg': 'binary_segregator<threshold_segregatable<leaf1>, leaf2>', 'fb': 'fallback_allocator<leaf1, leaf2>',
+           'fb2': 'fallback_allocator<fallback_allocator<leaf1, leaf2>, leaf3>', 'fbal': 'fallback_allocator<aligned_allocator<leaf1>, leaf2>',
+           'd3': 'thread_safe_allocator<aligned_allocator<tracked_allocator<tracker, leaf>>, harness mutex>'}
+for comp, defs in AD_COMP.items():
+    props = ['C09'] + (['C08'] if comp.startswith('fb') or comp == 'seg' else []) + (['C13'] if comp in ('ts', 'd3', 'direct', 'ref', 'any') else [])
+    for api in (0, 1):
+        for ks in (0, 1):
+            for cfg, tier in (('release', 'quick'), ('baseline', 'thorough'), ('debug8', 'thorough')):
+                add('adapt-%s-%s-%s-%s' % (comp, 'try' if api else 'throw', 'array' if ks else 'node', cfg), props, 'adapt', 'adapt_step.c', config=cfg,
+                    defines=['COMP=%s' % comp, 'API=%d' % api, 'KINDSEL=%d' % ks, 'HEAP_SIZE=256'] + defs, unwind=8, timeout=300, tier=tier,
+                    desc='%s: one %s %s request and its matching release over recording leaves' % (AD_DESC[comp], 'composable' if api else 'throwing', 'array' if ks else 'node'),
+                    bounds='size 1..65535, count 1..8, alignment 1..64 (powers of two), leaf maxima and success/failure of every leaf call symbolic')
+for sa in ('sa1', 'sa3', 'sa24', 'sa48'):
+    add('adapt-misc-1-%s' % sa, ['C09', 'C10'], 'adapt', 'adapt_misc.c', config='release', defines=['CASE=1', 'SA=%s' % sa, 'HEAP_SIZE=512'], unwind=8, timeout=300,
+        desc='std_allocator<T, leaf>::allocate(n)/deallocate(p, n), T = %s' % sa, bounds='n 1..5')
+add('adapt-misc-2', ['C09'], 'adapt', 'adapt_misc.c', config='release', defines=['CASE=2', 'HEAP_SIZE=512'], unwind=8, timeout=600, solver='cvc5',
+    desc='memory_resource_adapter<leaf> through the memory_resource interface (cvc5: integer encoding for the division)', bounds='bytes 1..65535, max_node_size 1..4096, alignment 1..64')
+add('adapt-misc-3', ['C09', 'C20'], 'adapt', 'adapt_misc.c', config='release', defines=['CASE=3', 'HEAP_SIZE=512'], unwind=8, timeout=300,
+    desc='allocator_(polymorphic_)deleter / deallocator incl. a derived type of 70016 bytes', bounds='array length 1..255')
+add('adapt-misc-4', ['C10', 'C09'], 'adapt', 'adapt_misc.c', config='release', defines=['CASE=4', 'HEAP_SIZE=512'], unwind=8, timeout=300,
+    desc='std_allocator equality: same referenced object <=> equal; release through an equal allocator reaches the same leaf', bounds='two allocator objects')
